@@ -271,3 +271,89 @@ def correspond(chk, corpus, results):
                          "model": mvm[:400]})
     chk.stats["model-declined(mark as value / non-plain names)"] = declined
     return mism, len(idx)
+
+
+# ---------------------------------------------------------------- C05 layer B: model evaluator vs exec
+def _pyeval_work(batch):
+    out = []
+    for d in batch:
+        try:
+            ops = vmlib.abstract_ops(d)
+        except Exception:
+            ops = None
+        if ops is None:
+            out.append(None)
+            continue
+        try:
+            real = vmlib.real_py_eval(d)
+        except RecursionError:
+            real = "SKIP"
+        names = [o if isinstance(o, str) else o[0] for o in ops]
+        try:
+            rvm = vmlib.real_vm_run(d)
+        except RecursionError:
+            rvm = "RENDER-ERR"
+        out.append({"ops": sx(ops), "real": real, "rvm": rvm,
+                    "data_only": all(n in DATA_OPS for n in names)})
+    return out
+
+
+DATA_OPS = {"CONST", "MARK", "STOP", "POP", "POP_MARK", "DUP", "EMPTY_LIST", "EMPTY_DICT", "EMPTY_SET",
+            "EMPTY_TUPLE", "APPEND", "APPENDS", "LIST", "TUPLE", "TUPLE1", "TUPLE2", "TUPLE3", "DICT",
+            "SETITEM", "SETITEMS", "ADDITEMS", "FROZENSET", "PUT", "GET", "MEMOIZE", "NOOP"}
+_HOST_ERRORS = ("ERR KeyError", "ERR TypeError", "ERR IndexError", "ERR ValueError")
+
+
+def correspond_pyeval(chk, datas):
+    """Layer B tie: PyEval (the model's mini-Python evaluator applied to the model's decompilation)
+    vs exec(ast.unparse(Pickled.load(data).ast)) under the inert stand-ins: canonical value of
+    `result` and the event log.  Also the theorem's instance on data-only programs: the model
+    evaluator's value equals the reference-VM model's value.  Returns (mismatches, stats)."""
+    B = 300
+    batches = [datas[i:i + B] for i in range(0, len(datas), B)]
+    with ProcessPoolExecutor(max_workers=14) as ex:
+        reals = [r for rs in ex.map(_pyeval_work, batches) for r in rs]
+    lines, idx = [], []
+    for i, r in enumerate(reals):
+        if r is not None:
+            lines.append("(py_eval " + r["ops"] + ")")
+            lines.append("(vm_run " + r["ops"] + ")")
+            idx.append(i)
+    out = Driver().query(lines)
+    mism = []
+    st = {"compared": 0, "agree-OK": 0, "agree-OK-with-events": 0, "agree-ERR": 0, "model-declined": 0,
+          "real-skipped": 0, "data-only-theorem-instances": 0, "refvm-model-differs(skipped)": 0}
+    for j, i in enumerate(idx):
+        r = reals[i]
+        m, mvm, real = out[2 * j], out[2 * j + 1], r["real"]
+        if real in ("SKIP", "RENDER-ERR", "PARSE-ERR"):
+            st["real-skipped"] += 1
+            continue
+        if mvm.startswith("OK ") and r["rvm"].startswith("OK ") and mvm != r["rvm"]:
+            # the shared value model (RefVM / ShowVM) is itself off on this input (e.g. a set holding both
+            # 1 and True): that is reported by the existing RefVM correspondence, not a fact about PyEval
+            st["refvm-model-differs(skipped)"] += 1
+            continue
+        if m.startswith("OK "):
+            st["compared"] += 1
+            if m != real:
+                mism.append({"hex": datas[i].hex(), "side": "pyeval", "real": real[:400], "model": m[:400]})
+            else:
+                st["agree-OK"] += 1
+                if m.split(" | ", 1)[-1].strip():
+                    st["agree-OK-with-events"] += 1
+            if r["data_only"] and mvm.startswith("OK "):
+                # C05_plain_data_eval, observed through the canonical rendering
+                st["data-only-theorem-instances"] += 1
+                if m != mvm:
+                    mism.append({"hex": datas[i].hex(), "side": "pyeval-vs-refvm-model", "real": mvm[:400],
+                                 "model": m[:400]})
+        elif m.startswith(_HOST_ERRORS):
+            st["compared"] += 1
+            if real != "ERR":
+                mism.append({"hex": datas[i].hex(), "side": "pyeval", "real": real[:400], "model": m[:400]})
+            else:
+                st["agree-ERR"] += 1
+        else:
+            st["model-declined"] += 1       # FK-ERR / NORESULT / Unmodelled / Fuel
+    return mism, st
